@@ -121,6 +121,12 @@ Theorem DT_pass_through : forallb (fun x => snd x) DataFns.pass_through = true.
 Proof. exact pass_through_closed. Qed.
 Print Assumptions DT_pass_through.
 
+(** wiring: the published index each iterator follows ([succ_index]) and the one it publishes to ([set_atomic_index]), translated from
+    the three iterator files, are the Model's: producer <- consumer, worker <- producer, consumer <- worker (W) or producer (!W) *)
+Theorem DT_wiring : forall k s, succ_idx k s = tget (g_succ k (hasW s)) (pub s) /\ g_pub k = k.
+Proof. exact tie_wiring. Qed.
+Print Assumptions DT_wiring.
+
 (** non-vacuity: a concrete state satisfies [wf] (so the theorems above apply to it); [usize_max = 2^64] is never evaluated *)
 Lemma small_lt_usize_max : forall n, n <= 1000 -> n + n < usize_max.
 Proof.
